@@ -21,8 +21,12 @@
         the sign of a zero.  Now `workx.scalarop_from(|q| -q, &data.q)` and `symv`'s `y.fill(0)` for
         `b == 0` (as `gemv` always did; needs only `0 == 0`, hypothesis `hbeq`) overwrite them: both
         buffers are dead (`workx` up to the length of `q`: `WorkxSized`);
-  (iii) the stale ITERATE, only when `solve_initial_point` fails (`default_start` does not check its
-        result and shifts whatever is in `variables` into the cone): hypothesis `InitPointOk`;
+  (iii) NOT the stale ITERATE any more.  Until /repo 7c1c881 it was read when `solve_initial_point`
+        failed (`default_start` does not check its result and shifted whatever was in `variables` —
+        the un-scaled result of the previous `solve()` — into the cone): hypothesis `InitPointOk` of the
+        theorems below.  Now `solve_initial_point` zero-fills `variables.x/s/z` first: the three
+        vectors are dead (`full_solve_ignores_iterate`, `full_solve_iterate_dead`), and the
+        `…_any_start` theorems at the end of this file drop the hypothesis;
    (iv) the linear solver object through `update` / `setrhs`+`solve` only (`KktSim`): two objects that
         answer these calls alike are indistinguishable — `max_threads` and `direct_solve_method` are
         not even fields of the model's `Settings`, they live behind that interface
@@ -32,12 +36,13 @@
         `KKTSolver::update` rewrites every numeric entry a previous solve changed (KKT values at the
         `Hs`/sparse-cone positions, the permuted copy, `L, D, D⁻¹` — C11 `update_*`, C12
         `refactor_eq_fresh`).
-  Everything else — iterate (given (iii)), residuals, `step_lhs`, `step_rhs`, `prev_vars`, cone scalings
+  Everything else — iterate, residuals, `step_lhs`, `step_rhs`, `prev_vars`, cone scalings
   `w, λ, η, u, v, d`, `x1, z1, x2, z2, workz, work_conic`, the `solution` object — is dead.
 -/
 import ClarabelProofs.Lemmas.SolverStaleIdem
 import ClarabelProofs.Lemmas.SolverStaleExample
 import ClarabelProofs.Lemmas.KktQwNew
+import ClarabelProofs.Lemmas.SolverStaleAnyStart
 import ClarabelProofs.Lemmas.SolverModelNoPanicExample
 
 namespace Clarabel.C05
@@ -317,7 +322,8 @@ a NaN iterate included), the second `solve()` on the object it left returns the 
 — the same `solution` (status, `x, s, z`, objectives, iterations, residuals), the same trajectory pass
 by pass, the same final iterate and `info` figures — provided
   (iii) `solve_initial_point` succeeds (`default_start` does not check its result: otherwise the iterate
-        of the first solve is the start of the second).
+        of the first solve was the start of the second — until /repo 7c1c881; the hypothesis is no
+        longer needed: `full_solve_idempotent_any_start`).
 `ConesOk`, `WellSized`, `WorkxSized`, `KktOk` and `hsz` are structural facts about the object: every
 object built by `DefaultSolver::new` has them (`full_new_solver_is_well_formed`,
 `full_new_solver_kkt_well_formed`), and `solve()` preserves them, so the theorem chains to a third,
@@ -388,5 +394,127 @@ example {S : Solver Int} (h : newSolver 3 = .ok S) {r : SolveResult Int} (hr : S
     hk.inv.ldl rfl hsp
 
 end forgetsExamples
+
+/-! ### condition (iii) removed (code since /repo 7c1c881)
+
+  `solve_initial_point` zero-fills `variables.x/s/z` before its KKT solves, so when a solve fails
+  (iterative refinement meets a non-finite number) `default_start` shifts the zero vector into the
+  cone — the start a fresh solver object has — instead of the un-scaled iterate the previous `solve()`
+  left.  Before the repair the second of two `solve()` calls could return another `x, s, z` after a
+  first call that ended with an ordinary status (finding KF-C05-stale-start-after-failed-init,
+  regression `regressions/C05-stale-start-after-failed-init`). -/
+section anyStart
+variable {α : Type} [Add α] [Sub α] [Mul α] [Div α] [Neg α] [OfNat α 0] [OfNat α 1] [OfNat α 2]
+  [OfNat α 100] [OfNat α 1000] [LT α] [DecidableLT α] [LE α] [DecidableLE α] [BEq α] [FloatLike α]
+
+/-- [S] `C05.full_solve_ignores_iterate`: **`solve()` does not read `variables.x/s/z`.**  Zero-fill the
+three vectors of the solver object (`Solver.zeroVars`) before the call: `solve()` is the same function
+— the same error, or the same `SolveResult` (solution, trajectory, final state), as an EQUATION, for
+every scalar type, whether the initial KKT solve succeeds or not. -/
+theorem full_solve_ignores_iterate (S : Solver α) (st : Solver.Settings α) :
+    S.zeroVars.solve st = S.solve st :=
+  solve_zeroVars S st
+
+/-- [S] `C05.full_solve_iterate_dead`: replace the WHOLE iterate `variables` (`x, s, z, τ, κ`) of a solver
+object by anything of the same lengths (NaN, ±∞, the result of an earlier solve …): `solve()` gives the
+same observable result. -/
+theorem full_solve_iterate_dead (hbeq : ((0 : α) == 0) = true) (st : Solver.Settings α) (S : Solver α)
+    (v : Residuals.Vars α) (hv : VarsShape S.st.«variables» v) :
+    RelM SolveObs (S.solve st) (({ S with st := { S.st with «variables» := v } } : Solver α).solve st) :=
+  solve_rel_any hbeq qdldl_kktSim st
+    { data := rfl, «variables» := hv, residuals := ResidShape.of_eq rfl,
+      kktsystem := ⟨QW.rfl' _, rfl, rfl, rfl, rfl, SameFrom.rfl' _ _, rfl, SameFrom.rfl' _ _⟩,
+      cones := ConesShape.rfl' _, stepLhs := StepShape.of_eq rfl, stepRhs := StepShape.of_eq rfl,
+      prevVars := VarsShape.of_eq rfl }
+    (SolShape.rfl' _ _)
+
+/-- [S] `C05.full_solve_reads_only_any_start`: `full_solve_reads_only` without its hypothesis on the
+initial point.  Two `Stale`-related solver objects (same data, same vector lengths and cone shapes,
+linear-solver objects related by a simulation) whose `solution` objects have the same lengths: `solve()`
+fails with the same error on both, or succeeds on both with the same observable result. -/
+theorem full_solve_reads_only_any_start (hbeq : ((0 : α) == 0) = true)
+    {Bw Bs : KktSolver α → KktSolver α → Prop} (hsim : KktSim Bw Bs) (st : Solver.Settings α)
+    {S S' : Solver α} (h : Stale Bw S.st S'.st)
+    (hsol : SolShape ((presolveMap S.st.data).map (fun m => m.keep.size)) S.solution S'.solution) :
+    RelM SolveObs (S.solve st) (S'.solve st) :=
+  solve_rel_any hbeq hsim st h hsol
+
+/-- [S] `C05.full_solve_stale_any_start`: `full_solve_stale` without its hypothesis on the initial point:
+given the structural facts and `QW` on the two linear-solver objects, `solve()` cannot tell the two
+solver objects apart — whatever is in ANY of their mutable buffers, the iterate included. -/
+theorem full_solve_stale_any_start (hbeq : ((0 : α) == 0) = true) (st : Solver.Settings α) {S S' : Solver α}
+    (hsh : SameShape S.st S'.st) (hw : WellSized S.st) (hq : WorkxSized S.st)
+    (hK : QW S.st.kktsystem.kktsolver S'.st.kktsystem.kktsolver)
+    (hsol : SolShape ((presolveMap S.st.data).map (fun m => m.keep.size)) S.solution S'.solution) :
+    RelM SolveObs (S.solve st) (S'.solve st) :=
+  solve_rel_any hbeq qdldl_kktSim st (Stale.of_sameShape hsh hw hq hK) hsol
+
+/-- [S] `C05.full_solve_idempotent_any_start`: **the same solver solved twice — no condition left.**  If
+the first `solve()` on a solver object returned `r1` (with whatever status and figures), the second
+`solve()` on the object it left returns the same observable result — the same `solution` (status,
+`x, s, z`, objectives, iterations, residuals), the same trajectory pass by pass, the same final iterate
+and `info` figures.  The hypotheses are the structural facts every object built by `DefaultSolver::new`
+has and `solve()` preserves (`full_new_solver_is_well_formed`, `full_new_solver_kkt_well_formed`); the
+theorem chains to a third, fourth … call.  `full_solve_idempotent` without (iii). -/
+theorem full_solve_idempotent_any_start (hbeq : ((0 : α) == 0) = true) (st : Solver.Settings α) {S : Solver α}
+    {r1 : SolveResult α} (h1 : S.solve st = .ok r1) (hc : ConesOk S.st.cones) (hw : WellSized S.st)
+    (hq : WorkxSized S.st) (hk : KktOk S.st)
+    (hsz : ∀ n, (presolveMap S.st.data).map (fun m => m.keep.size) = some n →
+      S.solution.s.size ≤ n ∧ S.solution.z.size ≤ n) :
+    (∃ r2, r1.S.solve st = .ok r2 ∧ SolveObs r1 r2)
+      ∧ ConesOk r1.S.st.cones ∧ WellSized r1.S.st ∧ WorkxSized r1.S.st ∧ KktOk r1.S.st :=
+  ⟨solve_twice_obs1_any hbeq st h1 hc hw hq hk hsz, solve_conesOk h1 hc, solve_wellSized h1 hc hw,
+    solve_workxSized h1 hc hq, (solve_kktOk h1 hc hk).1⟩
+
+/-- [S] `C05.full_solve_idempotent_finite_any_start`: `full_solve_idempotent_finite` (hypothesis `QW` in
+its original shape) without (iii). -/
+theorem full_solve_idempotent_finite_any_start (hbeq : ((0 : α) == 0) = true) (st : Solver.Settings α)
+    {S : Solver α} {r1 : SolveResult α} (h1 : S.solve st = .ok r1) (hc : ConesOk S.st.cones)
+    (hw : WellSized S.st) (hq : WorkxSized S.st)
+    (hsz : ∀ n, (presolveMap S.st.data).map (fun m => m.keep.size) = some n →
+      S.solution.s.size ≤ n ∧ S.solution.z.size ≤ n)
+    (hK : QW S.st.kktsystem.kktsolver r1.S.st.kktsystem.kktsolver) :
+    ∃ r2, r1.S.solve st = .ok r2 ∧ SolveObs r1 r2 :=
+  solve_twice_obs_any hbeq st h1 hc hw hq hsz hK
+
+/-- [S] `C05.full_solve_idempotent_new_any_start`: the same for a solver object fresh from
+`DefaultSolver::new` on well-formed input: what is left are the input hypotheses of `new`. -/
+theorem full_solve_idempotent_new_any_start (hbeq : ((0 : α) == 0) = true) {P : Csc α} {q : Array α}
+    {A : Csc α} {b : Array α} {cones : List (ConeT α)} {st : Solver.Settings α} {perm : Array Nat}
+    (hin : InputOK P q A b cones) (hn : 0 < P.n) (hperm : PermFor P q A b cones st perm) {S : Solver α}
+    (hS : Solver.new P q A b cones st perm = .ok S) {r1 : SolveResult α} (h1 : S.solve st = .ok r1)
+    (hsz : ∀ n, (presolveMap S.st.data).map (fun m => m.keep.size) = some n →
+      S.solution.s.size ≤ n ∧ S.solution.z.size ≤ n) :
+    ∃ r2, r1.S.solve st = .ok r2 ∧ SolveObs r1 r2 :=
+  have hf := full_new_solver_is_well_formed hS
+  (full_solve_idempotent_any_start hbeq st h1 hf.1 hf.2.1 hf.2.2 (solverNew_kktOk hin hn hperm hS) hsz).1
+
+end anyStart
+
+/-! non-vacuity of the `…_any_start` theorems on the example problem (scalar type `Int`) -/
+section anyStartExamples
+open Clarabel.Solver.Example
+attribute [local instance] intFloatLike
+
+/-- `full_solve_reads_only_any_start` applies to the example solver and its poisoned copy (garbage in
+every dead component — the iterate included) with no side condition -/
+example (S : Solver Int) : RelM SolveObs (S.solve (st 3)) ((poison S).solve (st 3)) :=
+  full_solve_reads_only_any_start (by decide) qdldl_kktSim (st 3) (stale_poison S) (solShape_poison _ S)
+
+/-- `full_solve_iterate_dead`: any iterate of the same lengths -/
+example (S : Solver Int) :
+    RelM SolveObs (S.solve (st 3))
+      (({ S with st := { S.st with «variables» :=
+          { S.st.«variables» with x := junk S.st.«variables».x 7, τ := 5 } } } : Solver Int).solve (st 3)) :=
+  full_solve_iterate_dead (by decide) (st 3) S _ ⟨junk_size _ _, rfl, rfl⟩
+
+/-- the hypotheses of `full_solve_idempotent_new_any_start` hold on the example: well-formed input on
+which `new` succeeds (the example has no presolver, so `hsz` is void) -/
+example : InputOK P #[1] A #[1] ([.nonneg 1] : List (ConeT Int)) ∧ 0 < P.n ∧
+    PermFor P #[1] A #[1] ([.nonneg 1] : List (ConeT Int)) (st 3) #[0, 1] ∧ ∃ S, newSolver 3 = .ok S := by
+  obtain ⟨S, hS⟩ := exNew_ok
+  exact ⟨exInputOK, by decide, exPermFor, S, hS⟩
+
+end anyStartExamples
 
 end Clarabel.C05
